@@ -205,6 +205,51 @@ func (rw *rewriter) site(pos token.Pos) *ast.BasicLit {
 	return &ast.BasicLit{Kind: token.STRING, Value: strconv.Quote(fmt.Sprintf("%s/%s:%d", rw.short, filepath.Base(p.Filename), p.Line))}
 }
 
+// gwSite names a yield point placed right after a write to package-level state ("gw": global write). Lazy
+// initialisation, caches and counters live there; the scheduler leaves the writer at such a point far more often than elsewhere.
+func (rw *rewriter) gwSite(pos token.Pos) *ast.BasicLit {
+	p := rw.fset.Position(pos)
+	return &ast.BasicLit{Kind: token.STRING, Value: strconv.Quote(fmt.Sprintf("gw %s/%s:%d", rw.short, filepath.Base(p.Filename), p.Line))}
+}
+
+// writesPackageVar: does one of the assigned expressions denote (an element / field of) a package-level variable of this package?
+func (rw *rewriter) writesPackageVar(lhs []ast.Expr) bool {
+	for _, e := range lhs {
+		for {
+			switch x := e.(type) {
+			case *ast.IndexExpr:
+				e = x.X
+				continue
+			case *ast.SelectorExpr:
+				if id, ok := x.X.(*ast.Ident); ok {
+					if _, isPkg := rw.pkg.TypesInfo.Uses[id].(*types.PkgName); isPkg {
+						e = nil
+						break
+					}
+				}
+				e = x.X
+				continue
+			case *ast.StarExpr:
+				e = x.X
+				continue
+			case *ast.ParenExpr:
+				e = x.X
+				continue
+			}
+			break
+		}
+		id, ok := e.(*ast.Ident)
+		if !ok || id.Name == "_" {
+			continue
+		}
+		v, ok := rw.pkg.TypesInfo.Uses[id].(*types.Var)
+		if ok && v.Pkg() == rw.pkg.Types && v.Parent() == rw.pkg.Types.Scope() {
+			return true
+		}
+	}
+	return false
+}
+
 func simrtCall(fn string, args ...ast.Expr) *ast.CallExpr {
 	return &ast.CallExpr{Fun: &ast.SelectorExpr{X: ast.NewIdent("simrt"), Sel: ast.NewIdent(fn)}, Args: args}
 }
@@ -241,6 +286,20 @@ func (rw *rewriter) stmts(list []ast.Stmt) []ast.Stmt {
 					out = append(out, st, &ast.ExprStmt{X: simrtCall("Unlocked", rw.site(call.Pos()))})
 					continue
 				}
+			}
+		case *ast.AssignStmt:
+			if rw.writesPackageVar(st.Lhs) {
+				out = append(out, st, &ast.ExprStmt{X: simrtCall("Yield", rw.gwSite(st.Pos()))})
+				rw.yields++
+				rw.changed = true
+				continue
+			}
+		case *ast.IncDecStmt:
+			if rw.writesPackageVar([]ast.Expr{st.X}) {
+				out = append(out, st, &ast.ExprStmt{X: simrtCall("Yield", rw.gwSite(st.Pos()))})
+				rw.yields++
+				rw.changed = true
+				continue
 			}
 		case *ast.DeferStmt:
 			recv, m := rw.mutexMethod(st.Call)
